@@ -1171,3 +1171,128 @@ def time_indexed_access_is_local(qualname):
     return [_ob(qualname, "time-indexed-access-is-at-the-current-step", not bad, bad[0].lineno if bad else fn.lineno,
                 ("all %d accesses to time-indexed storage name the current step (%s)" % (n_access, ", ".join(sorted(T)))) if not bad else
                 ("`%s` at line %d reads or writes time-indexed storage at an index that does not depend on the current step (%s): the step then depends on where the simulation started" % (ast.unparse(bad[0]), bad[0].lineno, ", ".join(sorted(T)))))]
+
+
+# ------------------------------------------------------------------------------------------------ loop-carried locals
+def _lc_reads(node):
+    bound = set()
+    for n in ast.walk(node):
+        if isinstance(n, ast.comprehension):
+            bound |= _lc_targets(n.target)
+        if isinstance(n, ast.Lambda):
+            bound |= {a.arg for a in n.args.args}
+    return [n for n in ast.walk(node) if isinstance(n, ast.Name) and isinstance(n.ctx, ast.Load) and n.id not in bound]
+
+def _lc_walk_no_loops(st):
+    yield st
+    for c in ast.iter_child_nodes(st):
+        if isinstance(c, (ast.For, ast.While, ast.FunctionDef, ast.Lambda)):
+            continue
+        yield from _lc_walk_no_loops(c)
+
+def _lc_targets(t):
+    out = set()
+    for n in ast.walk(t):
+        if isinstance(n, ast.Name) and isinstance(n.ctx, ast.Store):
+            out.add(n.id)
+    return out
+
+def _lc_scan_loop(loop, nested=False):
+    """-> list of (name, lineno) read in an iteration before any assignment of that iteration, although the body assigns the name"""
+    body_assigned = set()
+    for st in loop.body:
+        if isinstance(st, (ast.For, ast.While)) and not nested:
+            continue
+        for n in (ast.walk(st) if nested else _lc_walk_no_loops(st)):
+            if isinstance(n, ast.Assign):
+                for t in n.targets:
+                    if isinstance(t, (ast.Name, ast.Tuple)):
+                        body_assigned |= _lc_targets(t)
+    acc = set()   # accumulators: x += .., x = f(x)
+    for st in loop.body:
+        for n in ast.walk(st):
+            if isinstance(n, ast.AugAssign) and isinstance(n.target, ast.Name):
+                acc.add(n.target.id)
+            if isinstance(n, ast.Assign) and len(n.targets) == 1 and isinstance(n.targets[0], ast.Name) and any(r.id == n.targets[0].id for r in _lc_reads(n.value)):
+                acc.add(n.targets[0].id)
+    # a running extreme (`if v < best: best = v`) is an accumulator too: the name is read in the test that guards its own assignment
+    for st in loop.body:
+        for n in ast.walk(st):
+            if isinstance(n, ast.If):
+                tested = {r.id for r in _lc_reads(n.test)}
+                for b in n.body:
+                    if isinstance(b, ast.Assign):
+                        for t in b.targets:
+                            acc |= (_lc_targets(t) & tested)
+    found = []
+    by_test = {}
+    def walk(stmts, defs):
+        defs = set(defs)
+        for st in stmts:
+            if isinstance(st, ast.Assign):
+                for r in _lc_reads(st.value): check(r, defs)
+                for t in st.targets:
+                    if isinstance(t, (ast.Name, ast.Tuple)): defs |= _lc_targets(t)
+                    else:
+                        for r in _lc_reads(t): check(r, defs)
+            elif isinstance(st, ast.If):
+                for r in _lc_reads(st.test): check(r, defs)
+                key = ast.unparse(st.test)
+                d1 = walk(st.body, defs | by_test.get((key, True), set())); d2 = walk(st.orelse, defs | by_test.get((key, False), set()))
+                by_test[(key, True)] = by_test.get((key, True), set()) | (d1 - defs)
+                by_test[(key, False)] = by_test.get((key, False), set()) | (d2 - defs)
+                t1 = terminates(st.body); t2 = terminates(st.orelse)
+                defs = d2 if t1 and not t2 else d1 if t2 and not t1 else (d1 & d2)
+            elif isinstance(st, (ast.For, ast.While)):
+                if isinstance(st, ast.For):
+                    for r in _lc_reads(st.iter): check(r, defs)
+                    inner = defs | _lc_targets(st.target)
+                else:
+                    for r in _lc_reads(st.test): check(r, defs)
+                    inner = defs
+                walk(st.body, inner)   # names assigned in an inner loop are not definitely assigned after it
+            elif isinstance(st, ast.Try):
+                d = walk(st.body, defs)
+                hd = [walk(h.body, defs) for h in st.handlers if not terminates(h.body)]
+                for h in st.handlers:
+                    if terminates(h.body): walk(h.body, defs)
+                d = walk(st.orelse, d)
+                for x in hd: d = d & x
+                defs = walk(st.finalbody, d)
+            elif isinstance(st, ast.With):
+                for it in st.items:
+                    for r in _lc_reads(it.context_expr): check(r, defs)
+                    if it.optional_vars is not None: defs |= _lc_targets(it.optional_vars)
+                defs = walk(st.body, defs)
+            else:
+                for r in _lc_reads(st): check(r, defs)
+                if isinstance(st, (ast.AugAssign,)) and isinstance(st.target, ast.Name): pass
+        return defs
+    def terminates(stmts):
+        return bool(stmts) and isinstance(stmts[-1], (ast.Continue, ast.Break, ast.Return, ast.Raise))
+    def check(r, defs):
+        if r.id in body_assigned and r.id not in defs and r.id not in acc:
+            found.append((r.id, r.lineno))
+    walk(loop.body, _lc_targets(loop.target))
+    return found
+
+
+
+def no_loop_carried_locals(qualname, nested=False):
+    """each iteration of a loop over independent items (series, outputs, populations) computes from that item alone: a local name that the
+    loop body assigns (plain assignment, outside nested loops) is not read in an iteration before that iteration has assigned it -- otherwise
+    the value comes from the previous item (or from before the loop) and the result for an item depends on which other items were
+    processed before it.  Accumulators (`x += ..`, `x = f(x)`) are loop-carried on purpose and not reported; a read under the same
+    condition (same test text) as an earlier assignment of the iteration counts as assigned.  With `nested`, assignments inside nested loops
+    count as well (a value set while scanning the cells of a row and used after them must be reset for every row)."""
+    fi = source.lookup(qualname)
+    out = []
+    for loop in ast.walk(fi.node):
+        if isinstance(loop, ast.For):
+            hits = _lc_scan_loop(loop, nested)
+            names = sorted({n for n, _ in hits})
+            out.append(_ob(qualname, "iteration-uses-only-its-own-locals@L%d" % loop.lineno, not hits, hits[0][1] if hits else loop.lineno,
+                           ("every local the body of the loop over `%s` assigns is assigned in an iteration before it is read" % ast.unparse(loop.iter)[:60]) if not hits else
+                           ("in the loop over `%s` the local %s is read at line %d before the iteration has assigned it on every path: its value is left over from the previous item"
+                            % (ast.unparse(loop.iter)[:60], ", ".join("`%s`" % n for n in names), hits[0][1]))))
+    return out
